@@ -13,6 +13,7 @@ type vCase struct {
 	Harness  string      `json:"harness"`
 	Vector   []vVecEntry `json:"vector"`
 	Realtime bool        `json:"realtime"`
+	Tier     int         `json:"tier"`
 }
 
 type vOut struct {
@@ -30,6 +31,7 @@ func vRunCase(c vCase) (out vOut) {
 	}
 	vVec, vPos, vObs, vCovers = c.Vector, 0, nil, nil
 	vRealtime = c.Realtime
+	vTier = c.Tier
 	defer func() {
 		out.Obs, out.Covers = vObs, vCovers
 		if r := recover(); r != nil {
